@@ -26,6 +26,37 @@ OVERRIDE_IF_NONE = {'pattern_descriptor': 'index', 'rdm_descriptor': 'index', 'd
 OPTIONAL_VARIANTS = {'method': ['corr', 'corr_cov', 'cosine_cov', 'spearman', 'correlation', 'crossnobis', 'poisson_cv', 'mahalanobis'],
                      'normalize': [False], 'random': [True], 'boot_type': ['rdm', 'pattern'], 'remove_mean': [True],
                      'weighting': ['equal']}
+
+
+class F:
+    """an optional-argument value built freshly per call"""
+    def __init__(self, fn):
+        self.fn = fn
+
+
+def _prec3(salt):
+    from .ops_data import _prec
+    return _prec(3, salt)
+
+
+# combinations of optional parameters (applied on the first-choice required arguments of every callable that has all of them)
+OPTIONAL_COMBOS = [
+    {'method': 'mahalanobis', 'noise': F(lambda: _prec3(1))},
+    {'method': 'crossnobis', 'noise': F(lambda: _prec3(2))},
+    {'method': 'crossnobis', 'noise': F(lambda: [_prec3(3), _prec3(4)])},                 # one precision per fold (2 runs)
+    {'method': 'crossnobis', 'noise': F(lambda: np.array([_prec3(5), _prec3(6)]))},
+    {'method': 'crossnobis', 'noise': F(lambda: {0: _prec3(7), 1: _prec3(8)})},
+    {'method': 'poisson', 'prior_lambda': 2.0, 'prior_weight': 0.5},
+    {'method': 'poisson_cv', 'prior_lambda': 2.0, 'prior_weight': 0.5},
+    {'dof': 3}, {'enforce_same': True}, {'unbalanced': True}, {'threshold': 1e-3}, {'ridge_weight': 0.5},
+    {'bins': F(lambda: [np.array([-0.5, 0.75]), np.array([0.0, 1.25])])},
+    {'sigma_k': F(lambda: np.eye(5))},
+    {'pattern_idx': F(lambda: np.array([0, 2, 3])), 'pattern_descriptor': 'index'},
+    {'theta': F(lambda: np.array([0.5, 1.5, 1.0]))},
+    {'fitter': F(lambda: __import__('rsatoolbox').model.fitter.fit_optimize)},
+    {'weights': F(lambda: np.array([1.0, 2.0, 0.5, 1.5]))},
+    {'reindex': False}, {'positive': True}, {'calc_noise_ceil': False}, {'k_rdm': 2, 'k_pattern': 2},
+]
 SCOPE = tuple(p + '.' for p in ['rsatoolbox.rdm', 'rsatoolbox.data', 'rsatoolbox.model', 'rsatoolbox.inference', 'rsatoolbox.util'])
 
 
@@ -193,6 +224,8 @@ def _in_scope(v):
         return True
     if isinstance(v, (list, tuple)) and v and all(_in_scope(x) or isinstance(x, (list, tuple)) for x in v):
         return True
+    if isinstance(v, dict) and v and all(isinstance(x, np.ndarray) for x in v.values()):
+        return True
     return hasattr(v, 'evaluations') and hasattr(v, 'models')
 
 
@@ -258,13 +291,19 @@ def sweep(ctx, variant=0, report=None, only=None):
             # ... and, on the first-choice arguments, every listed value of enumerated optional parameters
             extra_opts = [(p.name, v) for p in params if p.default is not inspect._empty
                           for v in OPTIONAL_VARIANTS.get(p.name, [])]
-            attempts = [(sf, ch, None) for sf, ch in attempts[:14]] + [(selfs[0], {k: 0 for k in cand}, ov) for ov in extra_opts]
+            pnames = {p.name for p in params if p.default is not inspect._empty}
+            combos = [c for c in OPTIONAL_COMBOS if set(c) <= pnames]
+            attempts = ([(sf, ch, None) for sf, ch in attempts[:14]] + [(selfs[0], {k: 0 for k in cand}, ov) for ov in extra_opts]
+                        + [(selfs[0], {k: 0 for k in cand}, c) for c in combos])
             ok = False
             last_err = None
             for sf, choice, optval in attempts:
                 try:
                     kwargs = {k: cand[k][i]() for k, i in choice.items()}
-                    if optval is not None:
+                    if isinstance(optval, dict):
+                        for k_, v_ in optval.items():
+                            kwargs[k_] = v_.fn() if isinstance(v_, F) else v_
+                    elif optval is not None:
                         kwargs[optval[0]] = optval[1]
                     for p in optional_heavy:
                         kwargs[p.name] = HEAVY_DEFAULTS[p.name]
